@@ -223,7 +223,7 @@ def body(c):
     plain = gen_docs(c, n, 0, 0, 0, 0, "plain")                                 # undecorated, incl. re-spread fragments
     decor = gen_docs(c, 4, 1, 1, 1, 1 if c.quick else 2, "decorated")
     total = len(set(small) | set(plain) | set(decor))
-    cap_plain, cap_decor = (700, 1300) if c.quick else (40000, 60000)
+    cap_plain, cap_decor = (700, 1300) if c.quick else (12000, 20000)
     exhaustive = True
     if len(plain) > cap_plain:
         keep = [x for x in plain if '"reuse"' in x]
@@ -243,7 +243,7 @@ def body(c):
             continue
         docs.append(d)
     # seeded random bigger documents (valid by construction; key conflicts filtered)
-    nrand = 400 if c.quick else 20000
+    nrand = 400 if c.quick else 6000
     made = 0
     while made < nrand:
         flat, spreads = random_flat(ts, rng, arg_names)
@@ -266,7 +266,7 @@ def body(c):
         docs.append(d)
         made += 1
     # two-operation documents (the measures are those of the whole document)
-    ntwo = 150 if c.quick else 3000
+    ntwo = 150 if c.quick else 1500
     base = [d for d in docs[:len(docs) - nrand]]
     for _ in range(ntwo):
         docs.append(two_ops(rng.choice(base), rng.choice(base)))
@@ -291,6 +291,9 @@ def body(c):
     meas = {t[1]: dict(zip(["depth", "cx_static", "cx_dynamic", "recursive", "directives"], t[2:7])) for t in m.tagged("MEASURE")}
     if len(meas) != len(cases):
         raise vlib.ToolError("measuring pass produced %d lines for %d documents" % (len(meas), len(cases)))
+    broken = [t[1] for t in m.tagged("MEASURE") if t[7] is not True]
+    if broken:
+        raise vlib.ToolError("design-level failure in Limits.tla: InliningLaw (measures unchanged when spreads are written inline) fails for case %s" % broken[:3])
 
     stage("V1 measure")
     # ---- runs: every limit at measure-1, measure, measure+1; one all-limits configuration; fast mode ------
